@@ -37,7 +37,7 @@ now wrong, if there is one):
     Series (2-D, empty, read-only, non-default / text / repeated row labels), numpy scalars, Python ints of any size, and floats up to
     the ends of the double (float32) range: reply = exact SI factor x the values passed in (no wrap-around, no overflow of an
     intermediate), the caller's object unchanged (copy taken before), the reply of a real conversion a new object sharing no memory,
-    the second conversion of the same variable = the first.  Regions where the unchanged tree wraps are kept out (ARG_TODO, reported).
+    the second conversion of the same variable = the first.  Where the unchanged tree wraps fixed-width integers: known findings S61-C01a..f.
 """
 import itertools
 import math
@@ -1175,17 +1175,53 @@ def run(ck):
         ("ndarray float32 near the largest float32", "extreme32",
          lambda fa: arr([float(np.float32(x)) for x in hi_floats(fa, float(F32.max) * 0.9, 3)], "float32")),
     ]
-    # TODO(candidate defects of the unchanged tree, reported, kept out of the generator): the paths below multiply the VALUE by an
-    # integer table entry / the integer 100 before anything else (`value * 100`, `value * _LOADING_MODE[b][u] * ...`), so arrays of a
-    # narrow integer dtype wrap around there on the unchanged tree (numpy keeps int8 * 100 in int8), and the multi-step products of the
-    # basis-changing formulas overflow / underflow in an intermediate at the ends of the double range.  Measured on 7c57bba.
+    # The paths below multiply the VALUE by an integer table entry / the integer 100 before anything else (`value * 100`,
+    # `value * _LOADING_MODE[b][u] * factor * ...`), so numpy arrays / Series / scalars of a fixed-width integer dtype wrap around there on
+    # the unchanged tree (numpy keeps int8 * 100 in int8; an integer that does not fit the dtype at all raises OverflowError).  Triage
+    # T3-C01: genuine (C01 quantifies over "every finite value or numpy/pandas array"), recorded as known findings S61-C01a..f.  The
+    # region is IN the generator; a failing case is given the known signature only when the reply EQUALS the predicted wrapped product
+    # (`int_wrap_prediction`) / the predicted OverflowError - any other wrong reply keeps the plain signature and is a VIOLATION.
+    # TODO(still kept out, not measured as wrong, only not guaranteed): values at the ends of the double range through the multi-step
+    # products of the basis-changing formulas (an intermediate may overflow / underflow).
     ARG_TODO = {
-        "c_pressure:relative->relative%": {"smallint", "int-extreme"},     # the other direction (value * 100**-1) is in
-        "c_loading:fraction->percent": {"smallint", "int-extreme"},        # the other direction (value / 100) is in
-        "c_loading:basis": {"smallint", "int-extreme", "extreme", "extreme32"},
-        "c_loading:physical<->fraction/percent": {"smallint", "int-extreme", "extreme", "extreme32"},
+        "c_loading:basis": {"extreme", "extreme32"},
+        "c_loading:physical<->fraction/percent": {"extreme", "extreme32"},
         "c_material:basis": {"extreme", "extreme32"},
     }
+    INT_CLASSES = ("smallint", "int-extreme")
+
+    def int_first_multipliers(branch, kind, a):
+        """The integers the unchanged source multiplies the VALUE by, in order, before the first float enters the product on this
+        path; (list, reply_stays_integer) or None when the path has no such integer."""
+        if branch in ("c_pressure:relative->relative%", "c_loading:fraction->percent"):
+            return [100], True
+        if kind == "L" and branch in ("c_loading:basis", "c_loading:physical<->fraction/percent"):
+            bf, bt, uf, ut, mb, mu = a
+            b0, u0 = (("volume_liquid" if mb == "volume" else mb), mu) if bf in ("fraction", "percent") else (bf, uf)
+            try:
+                t, si = CODE[LB_TABLE[b0]].get(u0), Fr(LTABLE[b0][u0])
+            except Exception:  # noqa
+                return None
+            if type(t) is not int or si != t:      # a float table entry takes the value into float64 first: nothing wraps
+                return None
+            return [t] + ([100] if (bt == "percent" and bf != "fraction") else []), False
+        return None
+
+    def int_wrap_prediction(v, ms):
+        """('overflow', None) when an integer of `ms` does not fit the dtype of v (numpy refuses: OverflowError), else
+        ('wrap' | 'none', values of v times the integers of `ms`, each product reduced modulo 2**bits into the dtype's range)"""
+        dt = v.dtype
+        if dt.kind not in "iu":
+            return "none", None
+        ii = np.iinfo(dt)
+        out, wrapped_any = [int(x) for x in (v.values if isinstance(v, pd.Series) else np.asarray(v)).ravel()], False
+        for m in ms:
+            if not ii.min <= m <= ii.max:
+                return "overflow", None
+            new = [(x * m - ii.min) % (1 << ii.bits) + ii.min for x in out]
+            wrapped_any = wrapped_any or any(z != x * m for z, x in zip(new, out))
+            out = new
+        return ("wrap" if wrapped_any else "none"), out
 
     def exact_vals(v):
         if isinstance(v, pd.Series):
@@ -1280,6 +1316,33 @@ def run(ck):
                 if off:
                     det["offset"] = str(float(off))
                 sig0 = {"entry": branch, "value_kind": kname}
+                if not fits1 and kcls in INT_CLASSES and hasattr(v, "dtype"):
+                    # known findings S61-C01a..f: set ONLY when the reply is exactly the wrapped integer product / the predicted refusal
+                    ms = int_first_multipliers(branch, kind, a)
+                    st, wv = int_wrap_prediction(v, ms[0]) if ms else ("none", None)
+                    known_out = None
+                    if st == "overflow" and o1 == ("err", "other:OverflowError") and o2 == o1 and unchanged1 and unchanged2:
+                        known_out = "other:OverflowError"
+                    elif st == "wrap":
+                        rest = factor
+                        for m in ms[0]:
+                            rest = rest / m
+                        pred = [Fr(z) * rest for z in wv]
+                        same = reply_fits(o1, snap, pred, rel, off) and reply_fits(o2, snap, pred, rel, off) and unchanged1 and unchanged2
+                        if same and ms[1]:     # the reply is still an integer container of the same dtype: exact equality
+                            r1 = o1[1].values if isinstance(o1[1], pd.Series) else np.asarray(o1[1])
+                            same = r1.dtype == v.dtype and [int(x) for x in r1.ravel()] == wv
+                        if same:
+                            known_out = "wrapped-integer-product"
+                    if known_out:
+                        groups.add(("arg-int-wrap", branch, known_out),
+                                   dict(sig0, fn="argument-dtype-magnitude", dtype_class="fixed-width-integer", outcome=known_out),
+                                   dict(det, expected=[float(e) for e in exp][:6], value_multiplied_first_by=ms[0],
+                                        predicted_wrapped_integers=None if wv is None else wv[:6],
+                                        what="the source multiplies the value by an integer before anything else; in the value's "
+                                             "fixed-width integer dtype that product wraps around (or the integer does not fit: OverflowError)"))
+                        arg_n["known_int_wrap"] = arg_n.get("known_int_wrap", 0) + 1
+                        continue
                 if not fits1:
                     groups.add(("arg-value", branch, kcls), dict(sig0, fn="argument-dtype-magnitude"),
                                dict(det, expected=[float(e) if abs(e) < Fr(F64.max) else str(e) for e in exp][:6],
